@@ -84,7 +84,12 @@ CHECKS = {
         technique="Coq proof (ring/field identities lifted over layer lists by induction) + slice translator/bridge + float correspondence; symmetry oracle with Nyquist filtering",
         design="6/C07",
     ),
-}
+    "C12": dict(
+        text="Machine-checked Coq theorems about Model/Runtime.v, an executable state machine of the process-global state a solve touches (config.NUM_THREADS, numba's thread count, the FFTManager singleton, pyfftw's thread count, parallelize's per-flag compiled kernels, manager creations) mirroring solver.py / fft_manager.py / utils.parallelize statement by statement: for EVERY sequence of thread changes, manager resets, solves and raising calls, from every state, each solve returns exactly what the same call returns in a fresh one-thread process, under two named oracle equalities (both numba variants of ivp_solver compute the same function for every thread count; a pyfftw transform does not depend on its thread count); from every REACHABLE state the transform oracle is not needed because the machine itself proves every transform runs on a one-thread manager; bookkeeping invariants after any history (live manager's threads = pyfftw's, _compiled only grows without duplicates in insertion order, closed form of the state after a solve incl. the number of FFTManager re-creations: two per numerical solve when NUM_THREADS > 1, numba's thread count is set but never restored); and, about Model/Solver.v, precision is consumed by the storage rounding only (identity rounding => both precisions give the same result, every Ops, every request). Tied to the source on every run by exact differential execution of states and of every state-reading call over random histories in fresh subprocesses, by bit-level comparison of results, and by an AST census of all global-state accesses.",
+        note="Partial: the history theorem is conditional on the oracle equalities kernel(par, n) = kernel(serial, 1) and fft(t) = fft(1). Thread schedules inside numba and FFTW, numba code generation (incl. the on-disk cache serving one variant's machine code for both flags) and FFTW planner/wisdom effects are runtime behaviour the model cannot exhibit; they are EXERCISED, not proved: results are compared bit for bit within a process and against fresh one-thread processes (serial-first, parallel-first and cold numba caches, NUM_THREADS 1..8, manager resets, planted FFTW_MEASURE wisdom at 1e-12), single vs double at 1e-5 of the field maximum. IEEE rounding is not covered by any theorem. The check is stricter than the property in one place: a rounding-level (<= 1e-12) difference between thread settings refutes the oracle hypothesis and is reported as 'no longer checks' without a failing input. Hand-written model; theorems closed under the global context.",
+        technique="Coq proof (induction over op lists with a state invariant; closed form of one solve by rewriting; inspection proof that rho is the only consumer of a_single) + exact model/implementation correspondence of state traces and state-reading calls evaluated by vm_compute + bit-level differential execution across histories, thread settings, processes, numba-cache and FFTW-wisdom regimes + fail-closed AST census of global-state accesses + model-independent history oracle with shrinking",
+        design="6/C12",
+    ),}
 
 NOT_YET = "check not built yet in this round of work (planned in DESIGN.md section 6); no claim is made"
 
